@@ -54,6 +54,9 @@ type indexKVStore struct {
 	immutable *imap.IntMap[map[string]uint32]
 	// cache
 	bucketCache *expirable.LRU[uint32, *model.TrieBucket]
+	// flushGen counts the flushes which replaced the snapshot(guarded by lock),
+	// a lookup of the persisted data is only valid for the generation it started in.
+	flushGen uint64
 
 	lock sync.RWMutex
 }
@@ -64,9 +67,8 @@ func NewIndexKVStore(family kv.Family, cacheSize int, cacheTTL time.Duration) In
 		family:   family,
 		snapshot: family.GetSnapshot(),
 		mutable:  imap.NewIntMap[map[string]uint32](),
-		bucketCache: expirable.NewLRU(cacheSize, func(_ uint32, value *model.TrieBucket) {
-			value.Release()
-		}, cacheTTL),
+		// NOTE: evicted buckets must not go back to the trie pool here, a concurrent lookup may still read them
+		bucketCache: expirable.NewLRU[uint32, *model.TrieBucket](cacheSize, nil, cacheTTL),
 	}
 }
 
@@ -295,9 +297,29 @@ func (s *indexKVStore) Flush() (err error) {
 
 	s.snapshot = s.family.GetSnapshot()
 	s.immutable = nil
+	s.flushGen++
 	// purge bucket cache, because new kv write
 	s.bucketCache.Purge()
 	return nil
+}
+
+// flushGeneration returns the current flush generation.
+func (s *indexKVStore) flushGeneration() uint64 {
+	s.lock.RLock()
+	defer s.lock.RUnlock()
+
+	return s.flushGen
+}
+
+// cacheBucket caches the bucket if no flush completed since the given generation
+// (else the bucket was read from an old snapshot and would hide the keys flushed since).
+func (s *indexKVStore) cacheBucket(gen uint64, bucketID uint32, bucket *model.TrieBucket) {
+	s.lock.RLock()
+	defer s.lock.RUnlock()
+
+	if s.flushGen == gen {
+		s.bucketCache.Add(bucketID, bucket)
+	}
 }
 
 // getSnapshot returns family snapshot.
@@ -311,10 +333,23 @@ func (s *indexKVStore) getSnapshot() version.Snapshot {
 func (s *indexKVStore) getOrCreateValue(bucketID uint32, key []byte,
 	createFn func() (uint32, error),
 ) (id uint32, ok, isNew bool, err error) {
+	for {
+		var retry bool
+		id, ok, isNew, retry, err = s.tryGetOrCreateValue(bucketID, key, createFn)
+		if !retry {
+			return id, ok, isNew, err
+		}
+	}
+}
+
+func (s *indexKVStore) tryGetOrCreateValue(bucketID uint32, key []byte,
+	createFn func() (uint32, error),
+) (id uint32, ok, isNew, retry bool, err error) {
+	gen := s.flushGeneration()
 	// get from memory store
 	id, ok = s.GetValueFromMem(bucketID, key)
 	if ok {
-		return id, true, false, nil
+		return id, true, false, false, nil
 	}
 
 	bucket, ok := s.bucketCache.Get(bucketID)
@@ -324,35 +359,49 @@ func (s *indexKVStore) getOrCreateValue(bucketID uint32, key []byte,
 		reader := v1.NewIndexKVReader(snapshot)
 		bucket, err = reader.GetBucket(bucketID)
 		if err != nil {
-			return 0, false, false, err
+			return 0, false, false, false, err
 		}
 		if bucket != nil {
-			s.bucketCache.Add(bucketID, bucket)
+			s.cacheBucket(gen, bucketID, bucket)
 		}
 	}
 	if bucket != nil {
 		// check bucket not nil, maybe not exist under kv store
 		id, ok = bucket.GetValue(key)
 		if ok {
-			return id, true, false, nil
+			return id, true, false, false, nil
 		}
 	}
 
 	// create new value
 	if createFn == nil {
-		return 0, false, false, nil
+		return 0, false, false, false, nil
 	}
-	id, err = s.createValue(bucketID, key, createFn)
-	if err != nil {
-		return 0, false, false, err
+	id, isNew, retry, err = s.createValue(gen, bucketID, key, createFn)
+	if err != nil || retry {
+		return 0, false, false, retry, err
 	}
-	return id, true, true, nil
+	return id, true, isNew, false, nil
 }
 
-// createValue creates new value.
-func (s *indexKVStore) createValue(bucketID uint32, key []byte, createFn func() (uint32, error)) (uint32, error) {
+// createValue creates new value, if the key still does not exist.
+func (s *indexKVStore) createValue(gen uint64, bucketID uint32, key []byte,
+	createFn func() (uint32, error),
+) (id uint32, isNew, retry bool, err error) {
 	s.lock.Lock()
 	defer s.lock.Unlock()
+
+	if s.flushGen != gen {
+		// a flush moved keys from memory into the kv store after the lookup of this caller, need lookup again
+		return 0, false, true, nil
+	}
+	// check again under the lock, another caller may have created the key after the lookup of this caller
+	if id, ok := s.getValueFromMem(s.mutable, bucketID, key); ok {
+		return id, false, false, nil
+	}
+	if id, ok := s.getValueFromMem(s.immutable, bucketID, key); ok {
+		return id, false, false, nil
+	}
 
 	kvs, ok := s.mutable.Get(bucketID)
 	if !ok {
@@ -360,12 +409,12 @@ func (s *indexKVStore) createValue(bucketID uint32, key []byte, createFn func() 
 		s.mutable.Put(bucketID, kvs)
 	}
 	// generate and store value
-	id, err := createFn()
+	id, err = createFn()
 	if err != nil {
-		return 0, err
+		return 0, false, false, err
 	}
 	kvs[string(key)] = id
-	return id, nil
+	return id, true, false, nil
 }
 
 // GetValueFromMem returns value from mem store.
